@@ -205,3 +205,22 @@ META['C06'] = dict(
     technique='runtime trace-specification monitor over the notification channel (obligations derived from the reference model), virtual time',
     level_text='Exploration (same histories as C04): every notification received after a step must be justified by an open obligation, carry the tracked address/flag/names/router flag, respect the offline-before-online order, and every obligation must be discharged; repeat traffic must be silent.',
     level_note='Order inside one purge tick is compared as a multiset (the library iterates a map). Each name field may equal the host-level or the MAC-level tracked value.')
+
+PROPS['C07'] = dict(
+    runs=[run('plain')], shards=16, watchdog=True, level='exploration',
+    rule=('(1) direct sweep of the exported send functions with generated arguments, 40 calls per synctest bubble, four NIC configurations (/24, /28, /16, with and without IPv6 '
+          'link-local): arp Request/RequestTo/Probe/AnnounceTo/Reply/RequestRaw/WhoIs/Scan, ICMP4SendEchoRequest, ICMP6SendEchoRequest/NeighborAdvertisement/NeighbourSolicitation/'
+          'RouterSolicitation/RouterAdvertisement, Ping, Ping6, dhcp SendDiscoverPacket, SendMDNSQuery/SendLLMNRQuery/SendNBNSQuery/SendNBNSNodeStatus/SendSSDPSearch/SendSleepProxyResponse, '
+          'PingAll, StartRADVS; the frames recorded between the call and the next quiescent point belong to the call and are matched field by field against the arguments (intent log). '
+          '(2) the session\'s purge probes along host-tracking histories. Every frame additionally passes the universal rules (refdec strict decode, lengths, Ethernet source, IPv4/ICMP '
+          'checksums, NDP hop limit 255 and option area, 33:33 group MAC mapping, DHCP/DNS payload decode). Frames of C11-C14 workloads are judged by the same monitor inside those checks. '
+          'Non-trivial = a frame whose intent matched; distinct = (send path, protocol class, destination class, NIC configuration)'),
+    assumptions=['refdec is the trusted decoder', 'frames emitted between two quiescent points of the bubble belong to the call made in between',
+                 'well-known destinations: mDNS 224.0.0.251:5353, LLMNR 224.0.0.252:5355, SSDP 239.255.255.250:1900; UDP checksums are not part of the property'],
+    min_obs={'quick': {'tx_frames_checked': 5000, 'tx_ok:purge-probe': 200}, 'thorough': {'tx_frames_checked': 5000}},
+    timeout={'quick': 1200, 'thorough': 6*3600},
+)
+META['C07'] = dict(
+    technique='runtime monitoring of every frame reaching Conn.WriteTo (recording PacketConn): reference-decoder rule monitor + intent log matching per send call, virtual time',
+    level_text='Exploration: ~2*10^4 (quick) / ~10^6 (thorough) send-API calls with generated parameters plus the frames emitted along host-tracking histories; each frame must decode strictly under refdec, carry the NIC MAC as source, verify its checksums, and match the fields the call asked for.',
+    level_note='Trusted base: refdec and the quiescence-based attribution of frames to calls inside the synctest bubble.')
